@@ -171,11 +171,13 @@ void exception_caught(fsm_t* self, event_t evt, fsm_t* fsm, int e)
 __CPROVER_requires(g_exc_caught == 0)                                            /*@ob C12.exception-caught-invoked-exactly-once */
 __CPROVER_requires(EV_EQ(evt, g_evt) && self == fsm)                             /*@ob C12.exception-caught-gets-the-event-being-processed */
 __CPROVER_requires(!g_exc)                                                       /*@ob C12.handler-runs-after-the-exception-was-caught */
+__CPROVER_requires(g_no_msg_queue || self->m_event_processing)                   /*@ob C04.exception-handler-runs-inside-the-step-events-it-submits-are-queued */
 __CPROVER_assigns(g_exc_caught)
 __CPROVER_ensures(g_exc_caught == 1)
 ;
 HandledEnum do_process_helper_unit(fsm_t* self, type_t EventT, event_t evt, _Bool no_exception_thrown, _Bool is_direct_call)
 __CPROVER_requires(__CPROVER_is_fresh(self, sizeof(*self)) && EV_EQ(evt, g_evt) && is_direct_call == g_is_direct_call && !g_exc && g_nproc == 0 && g_exc_caught == 0)
+__CPROVER_requires(g_no_msg_queue || self->m_event_processing)                   /* called by process_event_internal after do_pre_msg_queue_helper set the busy mark (its unit) */
 __CPROVER_assigns(g_nproc, g_handled, g_exc, g_exc_caught, g_nt_calls, g_threw)
 __CPROVER_ensures(g_nproc == 1)
 __CPROVER_ensures(no_exception_thrown || !g_exc)                                                              /*@ob C12.exception-does-not-escape */
